@@ -70,3 +70,92 @@ CHECKS['C15'] = dict(
     assumptions=['the four compression libraries themselves are trusted'],
     budget={'quick': 240, 'thorough': 1800},
 )
+
+_TBL = H('h_table.c', 'asan')
+_tbl_bounds = {'quick': 'structure sweep: all increasing key sequences of length<=4 from K9={e,00,0000,01,7f,80,8000,ff,ffff} x value sizes {0,1,600}^n x 6 compression types x restart {1,2,16} x block size 1024 x foreign prefix {0,13}; cadence sweep n in {r-1,r,r+1,2r,2r+1,100,1000} for r in {1,2,3,16,17} x 3 key families; length sweep (klen,vlen) in {0,1,127,128,129,16383,16384,16385}^2 alone and between two small entries; level sweep 40 levels INT_MIN..INT_MAX x 6 types',
+               'thorough': 'as quick with sequences of length<=5, value sizes {0,1,600,1100}, restart {1,2,3,16,17}, block size {1024,1025,4096}, prefix {0,1,13,4096}, lengths up to 2^21'}
+
+CHECKS['C01'] = dict(
+    level=MC, engine='seqx',
+    technique='bounded-exhaustive enumeration of (key sequence, value sizes, writer configuration) through the real writer and reader, compared with the input sequence; real mtbl_dump binary on a deterministic subset',
+    text='Every table of the bounded input/configuration space is written by the real writer into a memory file, opened by the real reader and iterated; the result must be the input sequence byte for byte. The space is built around the format\'s boundaries (empty key, prefixes, 0x00/0xff bytes, varint width changes at 128 and 16384, entries larger than a block, every block-cut position, every compression type and level class, restart cadence, foreign prefix), which the 15 tests touch at two shapes only.',
+    jobs=[
+        dict(name='struct', spec=_TBL, args=['struct'], tools=['mtbl_dump']),
+        dict(name='cadence', spec=_TBL, args=['cadence'], tools=['mtbl_dump']),
+        dict(name='length', spec=_TBL, args=['length'], tools=['mtbl_dump']),
+        dict(name='level', spec=_TBL, args=['level']),
+        dict(name='pool', spec=_TBL, args=['pool']),
+        dict(name='madvise', spec=_TBL, args=['madvise']),
+    ],
+    states_key='cases', transitions_key='transitions', traces_key='cases',
+    rule='one case = (writer configuration, key sequence, value sizes); signature = (compression, restart interval, #blocks<=6, max entries per block<=4, #shortened separators<=3, any multi-restart block)',
+    bounds=_tbl_bounds,
+    nonzero=['cases', 'multi_block_tables', 'tables_with_shortened_separator', 'tables_with_multi_restart_block', 'tool_runs'],
+    assumptions=['value bytes are synthesized from (tag,length) by a fixed generator', 'pool sweep runs real free-running threads (the schedule dimension belongs to C13)'],
+    budget={'quick': 400, 'thorough': 2400},
+)
+CHECKS['C09'] = dict(
+    level=MC, engine='seqx',
+    technique='bounded-exhaustive enumeration of writer inputs/configurations; every produced file is decoded and structurally checked by an independent MTBL implementation (icodec)',
+    text='The same bounded space as C01; each file is parsed by a from-scratch decoder that shares no code with mtbl and checked against the format rules of the statement (contiguity, length prefix + CRC32C, index separators between last key and next first key, zero-padded 512-byte trailer with magic, restart validity and cadence, longest-common-prefix elision, the two-sided block size rule).',
+    jobs=[
+        dict(name='struct', spec=_TBL, args=['struct']),
+        dict(name='cadence', spec=_TBL, args=['cadence']),
+        dict(name='length', spec=_TBL, args=['length']),
+        dict(name='level', spec=_TBL, args=['level']),
+    ],
+    states_key='cases', transitions_key='transitions', traces_key='cases',
+    rule='as C01', bounds=_tbl_bounds,
+    nonzero=['cases', 'multi_block_tables', 'tables_with_shortened_separator', 'tables_with_multi_restart_block'],
+    assumptions=['icodec is validated at start-up against the foreign sample files in /repo/t (see C11) and against the library on every case'],
+    budget={'quick': 400, 'thorough': 2400},
+)
+CHECKS['C10'] = dict(
+    level=MC, engine='seqx',
+    technique='bounded-exhaustive enumeration of writer inputs/configurations; every mtbl_metadata_* accessor compared with the value an independent decoder computes from the file bytes; real mtbl_info binary on a subset',
+    text='For every file of the bounded space the nine trailer statistics exposed by the accessors (and printed by mtbl_info) are compared with the truth recomputed from the bytes by the independent decoder: entries, data blocks, bytes of data blocks and of the index block including headers, key and value byte sums, index offset, block size, algorithm, version.',
+    jobs=[
+        dict(name='struct', spec=_TBL, args=['struct'], tools=['mtbl_info']),
+        dict(name='cadence', spec=_TBL, args=['cadence'], tools=['mtbl_info']),
+        dict(name='length', spec=_TBL, args=['length'], tools=['mtbl_info']),
+        dict(name='pool', spec=_TBL, args=['pool']),
+        dict(name='refused-adds', spec=H('h_gate.c', 'asan'), args=[]),
+    ],
+    states_key='cases', transitions_key='transitions', traces_key='cases',
+    rule='as C01', bounds=_tbl_bounds,
+    nonzero=['cases', 'multi_block_tables', 'tool_runs', 'cases_with_refusal'],
+    assumptions=['truth is what icodec derives from the bytes'],
+    budget={'quick': 400, 'thorough': 2400},
+)
+
+CHECKS['C08'] = dict(
+    level=MC, engine='seqx',
+    technique='exhaustive enumeration of all key sequences with repetition up to a length bound through the real mtbl_writer_add, against a reference ordering gate; finished file decoded independently',
+    text='All sequences of length <=4 (thorough <=5) WITH repetition over 8 keys (empty key, prefix pairs, 0x7f/0x80, 0xffff) x every assignment of small/block-filling values (so refusals happen right before and after a block cut, where the writer temporarily remembers a shortened separator) are added; each add result must equal the reference gate "strictly greater than the last accepted key", and the file must hold exactly the accepted entries with trailer counters to match. mtbl_writer_init is run on existing empty/non-empty files, symlinks (live, dangling, to a directory) and directories.',
+    jobs=[dict(name='gate', spec=H('h_gate.c', 'asan'), args=[])],
+    states_key='cases', transitions_key='transitions', traces_key='cases',
+    rule='one case = (key index sequence, small/big value vector, configuration); signature = (#blocks, #refused, #accepted)',
+    bounds={'quick': 'sequences of length<=4 over 8 keys (4681) x 2^n value vectors x {restart 16, restart 1}, compression none, block size 1024; 7 exclusive-create scenarios',
+            'thorough': 'length<=5 (37449 sequences), adds lz4'},
+    nonzero=['cases', 'cases_with_refusal', 'excl_cases'],
+    assumptions=[],
+    budget={'quick': 240, 'thorough': 1800},
+)
+
+CHECKS['C02'] = dict(
+    level=MC, engine='seqx',
+    technique='bounded-exhaustive enumeration of (table, query) pairs on the real reader: get / get_prefix / get_range drained and compared with a filter of the reference table',
+    text='Tables: every ordered pair of the 31 strings of length<=2 over {00,01,7f,80,ff} with the block cut between them (so every branch of the shortest-separator computation produces an index key), every 3-subset of that universe x every small/block-filling value vector, and the K9 structure sweep. Queries: the whole universe plus predecessor/successor/prefix/extension neighbours of every stored key and of every index separator found by the independent decoder; ranges over all ordered AND reversed pairs of the reduced query set. The oracle is the filter of the sorted reference array.',
+    jobs=[
+        dict(name='separators', spec=H('h_lookup.c', 'asan'), args=['sep']),
+        dict(name='subsets', spec=H('h_lookup.c', 'asan'), args=['sets']),
+        dict(name='k9', spec=H('h_lookup.c', 'asan'), args=['k9']),
+    ],
+    states_key='cases', transitions_key='transitions', traces_key='cases',
+    rule='one case = one table; transitions = lookups drained and compared; signature = (restart interval, #blocks, separator case per block: same / shorter / same length / longer)',
+    bounds={'quick': 'pairs of U5(len<=2)=465 x 5 value shapes x 4 configs; all 3-subsets of 31 keys x 2^3 value vectors; K9 subsets of size<=4 x {0,1,600}^n x 4 configs; ~150 point queries and ~900 range queries per table',
+            'thorough': 'pairs of U5(len<=3)=12090; all 4-subsets of 31 keys x 2^4 value vectors'},
+    nonzero=['cases', 'multi_block_tables', 'shortened_separators'],
+    assumptions=['a NULL iterator counts as the empty result'],
+    budget={'quick': 300, 'thorough': 2400},
+)
